@@ -66,14 +66,17 @@ def overlaid (sh ah : Option (Hdrs σ)) : Hdrs σ :=
   | none, some b => b
   | none, none => []
 
-/-- `none` = malformed; `some none` = no notification; `some (some c)` = one notification (both flavours equal) -/
-def flavours (cbs : List (Cb σ)) : Option (Option (Cb σ)) :=
-  match cbs with
-  | [] => some none
-  | [a, b] =>
+/-- `none` = malformed; `some none` = no notification; `some (some c)` = one notification: exactly one call per
+    registered callback flavour (`mode`), identical when both are registered -/
+def flavours (mode : CbMode) (cbs : List (Cb σ)) : Option (Option (Cb σ)) :=
+  match mode, cbs with
+  | _, [] => some none
+  | .both, [a, b] =>
     if !a.isAsync && b.isAsync && decide (a.udn = b.udn) && decide (a.ty = b.ty) && decide (a.source = b.source)
-       && decide (a.comb = b.comb) then some (some a) else none
-  | _ => none
+       && decide (a.comb = b.comb) then some (some { a with isAsync := false }) else none
+  | .sync, [a] => if !a.isAsync then some (some { a with isAsync := false }) else none
+  | .async, [a] => if a.isAsync then some (some { a with isAsync := false }) else none
+  | _, _ => none
 
 /-- the sender as known at the time of the message: in the map and not expired at `t` (C03: a valid sighting
     purges first) -/
@@ -140,8 +143,8 @@ def byebyeOk4 (src : σ) (m : Msg σ) (u ty : σ) (before : Snap σ) (o : Obs σ
       && decide (c.source = .advByebye) && mapEqBut src c.comb (overlaid o.pre.sh (some m.hdrs))
   | none => !known
 
-def stepOk (ipv : σ → Option Nat) (skip : σ → Bool) (src : σ) (e : Ev σ) (before : Snap σ) (o : Obs σ) : Bool :=
-  match flavours o.cbs with
+def stepOk (ipv : σ → Option Nat) (skip : σ → Bool) (src : σ) (mode : CbMode) (e : Ev σ) (before : Snap σ) (o : Obs σ) : Bool :=
+  match flavours mode o.cbs with
   | none => false
   | some n =>
     (match e with
@@ -158,12 +161,12 @@ def stepOk (ipv : σ → Option Nat) (skip : σ → Bool) (src : σ) (e : Ev σ)
      | .noise _ => n.isNone)
 
 /-- the judge: every step of the trace (event, device map before it, observations) -/
-def ok (ipv : σ → Option Nat) (skip : σ → Bool) (src : σ) (tr : List (Ev σ × Snap σ × Obs σ)) : Bool :=
-  tr.all fun x => stepOk ipv skip src x.1 x.2.1 x.2.2
+def ok (ipv : σ → Option Nat) (skip : σ → Bool) (src : σ) (mode : CbMode) (tr : List (Ev σ × Snap σ × Obs σ)) : Bool :=
+  tr.all fun x => stepOk ipv skip src mode x.1 x.2.1 x.2.2
 
-def firstFail (ipv : σ → Option Nat) (skip : σ → Bool) (src : σ) : List (Ev σ × Snap σ × Obs σ) → Nat → Option Nat
+def firstFail (ipv : σ → Option Nat) (skip : σ → Bool) (src : σ) (mode : CbMode) : List (Ev σ × Snap σ × Obs σ) → Nat → Option Nat
   | [], _ => none
-  | x :: r, i => if stepOk ipv skip src x.1 x.2.1 x.2.2 then firstFail ipv skip src r (i + 1) else some i
+  | x :: r, i => if stepOk ipv skip src mode x.1 x.2.1 x.2.2 then firstFail ipv skip src mode r (i + 1) else some i
 
 end
 end Upnp.C04
